@@ -40,7 +40,7 @@ def run(r):
     ]
     r.assumptions += [
         "refinement theorem: keys are compared by an equivalence keq that the hash respects (C15) and no key compares equal to the empty/tombstone placeholder cells (nanlike k = false: excludes NaN keys, shown necessary by C16_nan_key_refuted)",
-        "refinement theorem covers insert/remove/get/has/length/un-map with growth; reverse/rotate/take/drop/join/map-construction are covered by the tie and the search only",
+        "refinement theorem covers histories of insert/remove/get/has/length with growth, un-map through the abstraction (key bound to row i, not the sort in normalized()); reverse/rotate/take/drop/join/map-construction are covered by the tie and the search only (three of them have the defects listed as findings)",
     ]
     if not r.harness(["c16"]):
         return
@@ -77,6 +77,7 @@ def run(r):
                          "max_capacity": max([c["max_capacity"] for c in cases] + [0]),
                          "histories_reaching_capacity_ge_16": sum(1 for c in cases if c["max_capacity"] >= 16),
                          "op_kinds": opk, "histories_ending_in_error": sum(c["errors"] for c in cases),
+                         "histories_ending_at_a_corrupting_step": sum(c.get("corrupt", 0) for c in cases),
                          "compared": "cells, indices, len, rows and the output after every step"}
     for c in cases[:3]:
         r.sample({"tie_history": c["history"], "class": c["class"], "steps": c["steps"], "max_capacity": c["max_capacity"]})
@@ -88,7 +89,7 @@ def run(r):
                                         "cmd": "c16 one %s \"%s\"" % (c["class"], c["history"])}, ensure_ascii=False))
 
     # ---------------- search: implementation vs association list
-    depth = 5 if quick else 8
+    depth = 5 if quick else 9
     if r.broken:
         depth += 0 if quick else 0
     rc, out, err = run_bin("c16", ["exh", depth] + ([] if quick else ["memo"]), seed=r.seed, timeout=3000)
@@ -103,13 +104,20 @@ def run(r):
     phases = [l for l in lines + lines2 if "phase" in l]
     evals = sum(l.get("evaluations", 0) for l in phases)
     viols = [l for l in lines + lines2 if "violation" in l]
-    r.coverage["search"] = {"evaluations": evals, "phases": phases, "violation_classes": sorted(set(v["violation"] for v in viols))}
+    r.coverage["search"] = {"evaluations": evals, "phases": phases,
+                            "violation_classes": sorted(set(v["violation"].split(":")[0] for v in viols)),
+                            "unclassified_divergences": sum(1 for v in viols if v["violation"].startswith("general:"))}
     seen = set()
-    for v in sorted(viols, key=lambda v: len(v["history"])):
+    general = 0
+    for v in sorted(viols, key=lambda v: (len(v["history"].split()), len(v["history"]), v["history"])):
         key = v["violation"]
         if key in seen:
             continue
         seen.add(key)
+        if key.startswith("general:"):
+            general += 1
+            if general > 5:      # unclassified divergences: the five shortest are enough to act on
+                continue
         what = KNOWN_CLASSES.get(key, "map and association list disagree")
         r.violation(key, "%s: `%s` - %s" % (what, v["program"], v["detail"]),
                     {"class": v["class"], "history": v["history"], "program": v["program"], "detail": v["detail"],
